@@ -50,6 +50,38 @@ def is_neg_test(f, cond, vec, idxname=None):
     return bool(ld) and ld[0] == vec and (z.get("cv") == 0 or z.get("v") == 0) and (idxname is None or f.render(ld[1]) == idxname)
 
 
+def var_id(f, i):
+    """declaration id if node i is (casts of) a plain variable reference"""
+    i = f.strip(i)
+    return f.nodes[i]["decl"]["id"] if f.k(i) == "DeclRefExpr" else None
+
+
+def dense_obj(f, i):
+    """`((double*)(V->x))[idx]` -> (decl id of V, idx node) when V is a plain variable"""
+    i = f.strip(i)
+    if f.k(i) != "ArraySubscriptExpr":
+        return None
+    base = f.strip(f.nodes[i]["ch"][0])
+    if f.k(base) == "MemberExpr" and f.nodes[base]["member"] == "x" and "cholmod_dense" in f.nodes[base].get("fieldOf", ""):
+        v = var_id(f, f.ch(base)[0])
+        if v is not None:
+            return v, f.nodes[i]["ch"][1]
+    return None
+
+
+def neg_test_of(f, cond):
+    """cond is `V[idx] < 0` on a cholmod_dense payload: (decl id of V, decl id of idx) else None"""
+    c, neg = core.cond_polarity(f, cond)
+    n = f.nodes[c]
+    if neg or n["k"] != "BinaryOperator" or n["op"] != "<":
+        return None
+    ld = dense_obj(f, n["ch"][0])
+    z = f.nodes[f.strip(n["ch"][1])]
+    if ld and (z.get("cv") == 0 or z.get("v") == 0) and var_id(f, ld[1]) is not None:
+        return ld[0], var_id(f, ld[1])
+    return None
+
+
 NO_MONODIM = 4294967295
 
 
@@ -66,63 +98,88 @@ def run_sign(P, C):
     N = P.one("nnls_normal_block3", file_endswith="nnls.c")
     W = P.one("walk_descents", file_endswith="cholesky_solve.c")
     E = P.one("evaluate_descent", file_endswith="cholesky_solve.c")
-    # the returned vector
+    # the returned vector (by declaration, not by name)
     rets = [i for i in N.walk() if N.k(i) == "ReturnStmt"]
-    rv = set(N.render(N.nodes[r]["value"]).strip("()") for r in rets)
-    if rv != {"x"}:
-        raise core.AnalysisBroken("nnls_normal_block3 returns %s (expected the local x)" % rv)
-    created = [N.render(i) for i in N.walk() if ts.assign_parts(N, i) and N.render(ts.assign_parts(N, i)[0]) == "x"]
-    C.ob("SG-2", "nnls_normal_block3", "created-zeroed", len(created) == 1 and created[0].replace(" ", "").startswith("(x=cholmod_l_zeros("), N.where(),
-         "the solution vector is created by cholmod_l_zeros and never re-pointed: %s" % created)
-    # counter of negative components
+    rids = set(var_id(N, N.nodes[r]["value"]) for r in rets)
+    if len(rids) != 1 or None in rids:
+        raise core.AnalysisBroken("nnls_normal_block3 does not return one local variable on every exit")
+    X = rids.pop()
+    xname = N.var_name(X)
+    created = [i for i in N.walk() if ts.assign_parts(N, i) and var_id(N, ts.assign_parts(N, i)[0]) == X]
+    for i in N.walk():
+        if N.k(i) == "DeclStmt":
+            for d in N.nodes[i]["decls"]:
+                if d.get("id") == X and d.get("init", -1) >= 0:
+                    created.append(d["init"])
+    def zeros(i):
+        r = ts.assign_parts(N, i)
+        r = N.strip(r[1]) if r else N.strip(i)
+        return (N.nodes[r].get("callee") or {}).get("name") == "cholmod_l_zeros"
+    C.ob("SG-2", "nnls_normal_block3", "created-zeroed", len(created) == 1 and zeros(created[0]), N.where(),
+         "the solution vector (%s) is created by cholmod_l_zeros and never re-pointed: %s" % (xname, [N.render(c)[:60] for c in created]))
+
+    def loop_sig(L):
+        """(decl id of the loop variable, alpha-rendered bound) of a counting loop"""
+        from . import gw
+        return gw._c_canonical_loop(N, L)
+    # counters of negative components: counter id -> [(vector id, index var id, loop signature, directly under the test?)]
     neg_counters = {}
     for i in N.walk():
         if N.k(i) == "UnaryOperator" and N.nodes[i]["op"] == "++":
-            v = N.strip(N.ch(i)[0])
-            if N.k(v) != "DeclRefExpr":
+            v = var_id(N, N.ch(i)[0])
+            if v is None:
                 continue
-            ifs = [a for a in N.ancestors(i) if N.k(a) == "IfStmt"]
-            loops = [a for a in N.ancestors(i) if N.k(a) == "ForStmt"]
-            if not ifs or not loops:
+            ifs = [a_ for a_ in N.ancestors(i) if N.k(a_) == "IfStmt"]
+            loops = [a_ for a_ in N.ancestors(i) if N.k(a_) == "ForStmt"]
+            if not loops:
                 continue
-            direct = [a for a in ifs if loops[0] in set(N.ancestors(a))]
-            isneg = bool(direct) and is_neg_test(N, N.nodes[direct[-1]]["cond"], "x_F", "i")
-            lp = N.render(N.nodes[loops[0]]["cond"]).replace(" ", "")
-            neg_counters.setdefault(N.nodes[v]["decl"]["name"], []).append((isneg, lp, len(direct)))
+            if loop_sig(loops[0]) and loop_sig(loops[0])[0] == v:
+                continue                                   # the loop's own counter
+            direct = [a_ for a_ in ifs if loops[0] in set(N.ancestors(a_))]
+            nt = neg_test_of(N, N.nodes[direct[-1]]["cond"]) if direct else None
+            neg_counters.setdefault(v, []).append((nt, loop_sig(loops[0]), len(direct)))
     n_ob = 0
     for i in N.walk():
-        ds = dense_store(N, i)
-        if not ds or ds[0] != "dense" or ds[1] != "x":
+        ap = ts.assign_parts(N, i)
+        if not ap or ap[1] is None:
+            continue
+        tgt = dense_obj(N, ap[0])
+        if not tgt or tgt[0] != X:
             continue
         n_ob += 1
-        rhs = N.strip(ds[3])
+        rhs = N.strip(ap[1])
         ok = False
         why = "unclassified store %s" % N.render(i)
-        if N.nodes[rhs].get("cv") == 0 or N.nodes[rhs].get("v") == 0:
+        if N.nodes[i].get("op") == "=" and (N.nodes[rhs].get("cv") == 0 or N.nodes[rhs].get("v") == 0):
             ok, why = True, "literal 0"
-        else:
-            ld = dense_load(N, rhs)
-            if ld and ld[0] == "x_F":
-                ifs = [a for a in N.ancestors(i) if N.k(a) == "IfStmt"]
+        elif N.nodes[i].get("op") == "=":
+            ld = dense_obj(N, rhs)
+            if ld:
+                V, iv = ld[0], var_id(N, ld[1])
+                ifs = [a_ for a_ in N.ancestors(i) if N.k(a_) == "IfStmt"]
                 guard = None
-                for a in ifs:
-                    rc = core.rel_canon(N, N.nodes[a]["cond"], None)
-                    inthen = N.nodes[a]["then"] in [i] + list(N.ancestors(i))
-                    if rc and rc[1] == "==0" and inthen and len(rc[0].atoms()) == 1:
-                        guard = list(rc[0].atoms())[0]
-                loop = next((a for a in N.ancestors(i) if N.k(a) == "ForStmt"), None)
-                lp = N.render(N.nodes[loop]["cond"]).replace(" ", "") if loop is not None else None
+                for a_ in ifs:
+                    cnd = N.strip(N.nodes[a_]["cond"])
+                    inthen = N.nodes[a_]["then"] in [i] + list(N.ancestors(i))
+                    if inthen and N.k(cnd) == "BinaryOperator" and N.nodes[cnd]["op"] == "==" and N.nodes[N.strip(N.nodes[cnd]["ch"][1])].get("cv") == 0:
+                        guard = var_id(N, N.nodes[cnd]["ch"][0])
+                loop = next((a_ for a_ in N.ancestors(i) if N.k(a_) == "ForStmt"), None)
+                ls = loop_sig(loop) if loop is not None else None
                 cnt = neg_counters.get(guard, [])
-                good = bool(cnt) and any(c[0] and c[1] == lp and c[2] == 1 for c in cnt)
-                # the counter is incremented only under that test
-                only = all(c[0] for c in cnt)
-                idx_same = N.render(ds[2]).replace(" ", "") == "F[i]" and N.render(ld[1]) == "i"
-                ok = guard is not None and good and only and idx_same
-                why = "x_F[i] copied under %s == 0, where %s counts x_F[i] < 0 over %s" % (guard, guard, lp)
+                # the counter counts V[j] < 0 over the same range (same bound expression), directly under that test, and nowhere else
+                good = bool(cnt) and ls is not None and iv == ls[0] and \
+                    any(c[0] is not None and c[0][0] == V and c[1] is not None and c[0][1] == c[1][0] and c[1][1] == ls[1] and c[2] == 1 for c in cnt)
+                only = all(c[0] is not None and c[0][0] == V for c in cnt)
+                # the index of the store is the loop variable, directly or through an index array
+                ti = N.strip(tgt[1])
+                idx_ok = var_id(N, ti) == iv or (N.k(ti) == "ArraySubscriptExpr" and var_id(N, N.nodes[ti]["ch"][1]) == iv)
+                ok = guard is not None and good and only and idx_ok
+                why = "%s[%s] copied under %s == 0, where %s counts %s[.] < 0 over the same range" % (
+                    N.var_name(V), N.var_name(iv) if iv else "?", N.var_name(guard) if guard else "?", N.var_name(guard) if guard else "?", N.var_name(V))
         C.ob("SG-2", "nnls_normal_block3", "store#%d" % n_ob, ok, N.loc(i), why)
-    # x is handed to other functions: only walk_descents may write it
+    # the solution vector handed to other functions: only walk_descents may write it
     for i, cal in N.calls():
-        if cal and any(N.render(a).strip("()") == "x" for a in N.args(i)):
+        if cal and any(var_id(N, a_) == X for a_ in N.args(i)):
             ok = cal["name"] in ("walk_descents",)
             C.ob("SG-2", "nnls_normal_block3", "passed-to:" + cal["name"], ok, N.loc(i),
                  "the solution vector is passed to %s (%s)" % (cal["name"], "its stores are classified below" if ok else "unknown effect on the sign"))
